@@ -467,6 +467,9 @@ type rM struct {
 	maxAnswers int
 	trace      []Term
 	unknownFail bool
+	// retract/1 redo on a snapshot clause already removed by a nested goal: succeed (without removing) or skip
+	redoSucceedsOnRemoved bool
+	sawRemovedMatch       bool
 }
 
 func newRM(db *rDB, maxSteps, maxAnswers int) *rM {
@@ -753,6 +756,10 @@ func (m *rM) solve(goal Term, s *rSub, cutB int, k rK) rOut {
 		return m.retract(arg(0), s, k)
 	case f == rAtomClause && n == 2:
 		return m.clause(arg(0), arg(1), s, k)
+	case f == rAtomRetractall && n == 1:
+		return m.retractall(arg(0), s, k)
+	case f == rAtomAbolish && n == 1:
+		return m.abolish(arg(0), s, k)
 	}
 	// user-defined predicate
 	p := m.db.find(f, n)
@@ -986,9 +993,6 @@ func (m *rM) retract(cl Term, s *rSub, k rK) rOut {
 		return rErr(rAtomPermission.Apply(rAtomModify, rAtomStaticProc, xSlash.Apply(name, Integer(arity))))
 	}
 	for _, c := range p.snapshot() {
-		if c.died != 0 {
-			continue // already removed by a nested operation: a clause is removed at most once
-		}
 		ren := &rRename{}
 		h := rCopy(c.head, nil, ren)
 		b := rCopy(c.body, nil, ren)
@@ -1000,8 +1004,17 @@ func (m *rM) retract(cl Term, s *rSub, k rK) rOut {
 		if !ok {
 			continue
 		}
-		m.db.gen++
-		c.died = m.db.gen
+		if c.died != 0 {
+			// a clause of the call-time snapshot that a nested operation has already removed: it is removed at
+			// most once; whether this redo still succeeds is left open by ISO 8.9.3 -> both variants are offered
+			m.sawRemovedMatch = true
+			if !m.redoSucceedsOnRemoved {
+				continue
+			}
+		} else {
+			m.db.gen++
+			c.died = m.db.gen
+		}
 		r := k(s2)
 		if r.kind != rFail {
 			return r
@@ -1254,6 +1267,81 @@ func rSortDedupe(items []Term, s *rSub) []Term {
 		out = append(out, nil)
 		copy(out[pos+1:], out[pos:])
 		out[pos] = it
+	}
+	return out
+}
+
+
+func (m *rM) retractall(head Term, s *rSub, k rK) rOut {
+	h := rDeref(head, s)
+	switch h.(type) {
+	case Variable:
+		return rInstErr()
+	case Atom, Compound:
+	default:
+		return rTypeErr(rAtomCallable, h)
+	}
+	name, arity, _ := rNameArity(h)
+	p := m.db.find(name, arity)
+	if p == nil {
+		return k(s)
+	}
+	if !p.dynamic {
+		return rErr(rAtomPermission.Apply(rAtomModify, rAtomStaticProc, xSlash.Apply(name, Integer(arity))))
+	}
+	for _, c := range p.snapshot() {
+		ch := rCopy(c.head, nil, &rRename{})
+		if _, ok := rUnify(h, ch, s); ok && c.died == 0 {
+			m.db.gen++
+			c.died = m.db.gen
+		}
+	}
+	return k(s)
+}
+
+func (m *rM) abolish(pi Term, s *rSub, k rK) rOut {
+	t := rDeref(pi, s)
+	c, ok := t.(Compound)
+	if _, isVar := t.(Variable); isVar {
+		return rInstErr()
+	}
+	if !ok || c.Functor() != xSlash || c.Arity() != 2 {
+		return rTypeErr(rAtomPredInd, t)
+	}
+	name, nok := rDeref(c.Arg(0), s).(Atom)
+	arity, aok := rDeref(c.Arg(1), s).(Integer)
+	if !nok || !aok {
+		return rInstErr()
+	}
+	p := m.db.find(name, int(arity))
+	if p == nil || !p.dynamic {
+		return rErr(rAtomPermission.Apply(rAtomModify, rAtomStaticProc, xSlash.Apply(name, arity)))
+	}
+	m.db.gen++
+	for _, cl := range p.clauses {
+		if cl.died == 0 {
+			cl.died = m.db.gen
+		}
+	}
+	for i, q := range m.db.preds {
+		if q == p {
+			m.db.preds = append(m.db.preds[:i:i], m.db.preds[i+1:]...)
+			break
+		}
+	}
+	return k(s)
+}
+
+// clone returns an independent copy of the database (clauses are immutable terms; records are copied).
+func (db *rDB) clone() *rDB {
+	out := &rDB{gen: db.gen}
+	for _, p := range db.preds {
+		q := &rPred{name: p.name, arity: p.arity, dynamic: p.dynamic}
+		for _, c := range p.clauses {
+			cc := *c
+			q.clauses = append(q.clauses, &cc)
+		}
+		out.preds = append(out.preds, q)
 	}
 	return out
 }
